@@ -398,7 +398,22 @@ func c10RunOne(c *ev.Ctx, forcedRef string, directed func(si int, dsPaths []stri
 		if directed != nil {
 			nops = len(plan)
 		}
-		if directed == nil && !sameSize && r.Chance(1, 6) {
+		if directed == nil && !sameSize && len(dsPaths) > 0 && r.Chance(1, 5) {
+			// a ladder: one attribute of a dataset is replaced again and again by a string that is
+			// one character longer each time, so that the object header passes through every size
+			// up to its capacity (and then moves the attribute to dense storage)
+			p := dsPaths[r.Intn(len(dsPaths))]
+			start := r.Range(1, 40)
+			for j := 0; j < 230; j++ {
+				b := make([]byte, start+j)
+				for i := range b {
+					b[i] = byte('k' + (i+j)%13)
+				}
+				plan = append(plan, c10Intent{choice: 0, openPath: p, name: "ladder", val: &hx.Val{Kind: "str", S: []string{string(b)}}})
+			}
+			nops = len(plan)
+			kindsSeen["header-size-ladder"] = true
+		} else if directed == nil && !sameSize && r.Chance(1, 6) {
 			// a dataset without attributes gets ONE attribute that is too large for its header
 			// (dense storage holding a single object), which is replaced by a value of another
 			// size and then joined by others
